@@ -275,7 +275,7 @@ Definition of_answer (a : answer) : sexp :=
      8 text                 upper of each / isspace of each  -> ( text , list bool )
      9 regex name           Spec.ReFrag on a raw regex       -> outcome bool
     10 pat name             qnmatch with the table matcher   -> outcome bool   (= op 2 by match_linear_spec) *)
-Definition run (s : sexp) : sexp :=
+Definition run_base (s : sexp) : sexp :=
   let a1 := nth_s 1 s in
   let a2 := nth_s 2 s in
   let a3 := nth_s 3 s in
